@@ -14,7 +14,7 @@ import pysam
 from io import StringIO
 
 from .common import get_path_to_program
-from .gtf2db import convert_db_to_gtf, db2bed
+from .gtf2db import convert_db_to_gtf, db2bed, dump_json_atomically
 from .input_data_storage import SampleData
 
 logger = logging.getLogger('IsoQuant')
@@ -118,8 +118,7 @@ def store_index(index, args):
         'index_mtime': os.path.getmtime(index),
         'kmer_size': KMER_SIZE[args.data_type]
     }
-    with open(args.index_config_path, 'w') as f_out:
-        json.dump(converted_indexes, f_out)
+    dump_json_atomically(converted_indexes, args.index_config_path)
     logger.debug('New index saved to {}'.format(index))
 
 
@@ -153,8 +152,7 @@ def store_bed(bed, args):
         'reference_mtime': os.path.getmtime(genedb_filename),
         'bed_mtime': os.path.getmtime(bed)
     }
-    with open(args.bed_config_path, 'w') as f_out:
-        json.dump(converted_beds, f_out)
+    dump_json_atomically(converted_beds, args.bed_config_path)
     logger.debug('New BED saved to {}'.format(bed))
 
 
@@ -207,8 +205,7 @@ def store_alignment(bam_file, fastq_file, annotation, args):
         'bam_mtime': os.path.getmtime(bam_file),
         'ann_mtime': os.path.getmtime(ann_path) if ann_path else ""
     }
-    with open(args.alignment_config_path, 'w') as f_out:
-        json.dump(aligned_fastq_files, f_out)
+    dump_json_atomically(aligned_fastq_files, args.alignment_config_path)
     logger.debug('New alignment saved to {}'.format(bam_file))
 
 
